@@ -145,7 +145,7 @@ Lemma wf_cmd_inv c : wf_cmd c ->
 Proof.
   unfold wf_cmd, wf_cmdb. rewrite !andb_true_iff. intros [[H1 H2] H3].
   split; [exact H1|]. split; [now apply wf_bytesb_spec|].
-  destruct c; auto. now apply N.eqb_eq.
+  destruct c; cbn [cmd_constructible] in H3; auto. now apply N.eqb_eq.
 Qed.
 
 Ltac range_hyps :=
@@ -202,7 +202,7 @@ Proof.
     rewrite parse_command_hdr by (try apply w32_length; auto using div4_lt; reflexivity).
     unfold parse_body. rewrite w32_dec by assumption.
     replace (4 * (nlen data / 4)) with (nlen data) by (apply N.div_exact; [lia | exact F]).
-    rewrite take_n_app. finish_parse.
+    rewrite take_n_app. cbv zeta. rewrite F. finish_parse.
   - (* programIFR *)
     rewrite sb_align_app by (rewrite hdr4_length; reflexivity).
     unfold hdr4. rewrite <- !app_assoc.
@@ -251,14 +251,42 @@ Proof.
     reflexivity.
 Qed.
 
-(* fuse data that is not a whole number of words does not read back (the recorded finding C05-F1) *)
-Lemma cmd_roundtrip_fuses_refuted_lemma :
-  exists c, cmd_in_range c = true /\ wf_bytes (cmd_data c) /\ parse_command (export_cmd c) <> Ok c.
+(* construction: only programFuses has a precondition (whole 32-bit words, finding C05-F1 repaired); everything
+   constructible and exportable reads back; parse_command never returns a command that could not have been constructed *)
+Lemma parse_body_constructible f1b f2 t body c : parse_body f1b f2 t body = Ok c -> cmd_constructible c = true.
 Proof.
-  exists (CProgFuses 256 [1; 2; 3; 4; 5]). split; [reflexivity|]. split.
-  - apply wf_bytesb_spec. reflexivity.
-  - vm_compute. discriminate.
+  unfold parse_body. destruct (split4 body) as [[[[e0 e1] e2] e3] rest]. cbv zeta.
+  repeat match goal with
+         | |- context [if ?b then _ else _] => destruct b eqn:?
+         end; intros H; inversion H; subst; try reflexivity.
+  cbn [cmd_constructible]. assumption.
 Qed.
+
+Lemma parse_command_constructible d c : parse_command d = Ok c -> cmd_constructible c = true.
+Proof.
+  unfold parse_command.
+  repeat match goal with
+         | |- context [if ?b then _ else _] => destruct b eqn:?
+         end; try discriminate.
+  cbv zeta. apply parse_body_constructible.
+Qed.
+
+Lemma fuses_whole_words_lemma :
+  (forall a d, cmd_constructible (CProgFuses a d) = true <-> nlen d mod 4 = 0) /\
+  (forall c, (forall a d, c <> CProgFuses a d) -> cmd_constructible c = true) /\
+  (forall c, cmd_constructible c = true -> cmd_in_range c = true -> wf_bytes (cmd_data c) ->
+             parse_command (export_cmd c) = Ok c) /\
+  (forall d c, parse_command d = Ok c -> cmd_constructible c = true).
+Proof.
+  split; [intros a d; cbn [cmd_constructible]; apply N.eqb_eq|].
+  split; [intros c H; destruct c; try reflexivity; exfalso; eapply H; reflexivity|].
+  split; [|exact parse_command_constructible].
+  intros c H1 H2 H3. apply cmd_roundtrip_lemma. unfold wf_cmd, wf_cmdb.
+  rewrite H1, H2, (proj2 (wf_bytesb_spec _) H3). reflexivity.
+Qed.
+
+Example fuses_odd_rejected : cmd_constructible (CProgFuses 256 [1; 2; 3; 4; 5]) = false.
+Proof. reflexivity. Qed.
 
 (* ------------------------------------------------------------------ C. the loader's command decoder on exported commands *)
 Lemma lt6_U32 v : v < 6 -> v < U32.
